@@ -3,8 +3,10 @@ package main
 // C31 — only blocks fully covered by another block are hidden as duplicates.
 //
 // op:  dd.filter <metas>
-//        metas = <id>:<group>:<level>:<src>,<src>,… ; …      ids/sources are small numbers (ULID = testULID(n),
-//                                                    monotone in n), group = number of the compaction group
+//        metas = <ulid>:<group>:<level>:<src>,<src>,… ; …    ulid = <time> | <time>e<entropy> (ULID with that timestamp and
+//                                                    that entropy: blocks minted in the same millisecond differ in
+//                                                    entropy only); the answer names a block time*1000+entropy;
+//                                                    sources are small numbers; group = number of the compaction group
 //                                                    (labels {"g": group/3}, resolution [0,5m,1h][group%3]);
 //                                                    sources "-" = empty list
 // answer: kept=<ids ascending> dups=<ids ascending>
@@ -15,7 +17,7 @@ package main
 // oracle:
 //   hidden-not-covered   a hidden block has no kept block of the same group whose sources include all of its sources
 //   sources-lost         some source of some block is a source of no kept block
-//   order-dependent      two runs (other concurrency / other map order) disagree
+//   order-dependent-outcome  two runs (other concurrency / other Go map order) disagree
 //   dupids-mismatch      DuplicateIDs() is not exactly the set of blocks removed from the map
 
 import (
@@ -40,8 +42,24 @@ func init() {
 }
 
 type ddMeta struct {
-	id, group, level int
+	id, group, level int // id = t*1000 + e
+	t, e             int
 	sources          []int
+}
+
+// ddULID: timestamp 1000+t, entropy e (big-endian in the last bytes) — ULID.Compare = (t, e) lexicographic.
+func ddULID(t, e int) ulid.ULID {
+	var ent [10]byte
+	ent[9], ent[8] = byte(e), byte(e>>8)
+	var id ulid.ULID
+	_ = id.SetTime(uint64(1000 + t))
+	_ = id.SetEntropy(ent[:])
+	return id
+}
+
+func ddNum(id ulid.ULID) int {
+	ent := id.Entropy()
+	return (int(id.Time())-1000)*1000 + int(ent[8])<<8 + int(ent[9])
 }
 
 func parseDDMetas(s string) ([]ddMeta, bool) {
@@ -52,14 +70,21 @@ func parseDDMetas(s string) ([]ddMeta, bool) {
 		if len(p) != 4 {
 			return nil, false
 		}
-		id, e1 := strconv.Atoi(p[0])
+		te := strings.SplitN(p[0], "e", 2)
+		tt, e1 := strconv.Atoi(te[0])
+		ee := 0
+		var e0 error
+		if len(te) == 2 {
+			ee, e0 = strconv.Atoi(te[1])
+		}
+		id := tt*1000 + ee
 		g, e2 := strconv.Atoi(p[1])
 		lv, e3 := strconv.Atoi(p[2])
-		if e1 != nil || e2 != nil || e3 != nil || id < 0 || id > 60000 || g < 0 || g > 1000 || lv < 0 || lv > 100 || seen[id] {
+		if e0 != nil || e1 != nil || e2 != nil || e3 != nil || tt < 0 || tt > 60000 || ee < 0 || ee > 999 || g < 0 || g > 1000 || lv < 0 || lv > 100 || seen[id] {
 			return nil, false
 		}
 		seen[id] = true
-		m := ddMeta{id: id, group: g, level: lv}
+		m := ddMeta{id: id, t: tt, e: ee, group: g, level: lv}
 		for _, x := range hlib.Split(p[3], ",") {
 			v, err := strconv.Atoi(x)
 			if err != nil || v < 0 || v > 60000 {
@@ -82,8 +107,8 @@ func buildDDMap(ms []ddMeta, order []int) map[ulid.ULID]*metadata.Meta {
 		for _, s := range m.sources {
 			src = append(src, testULID(s))
 		}
-		out[testULID(m.id)] = &metadata.Meta{
-			BlockMeta: tsdb.BlockMeta{ULID: testULID(m.id), Version: 1, Compaction: tsdb.BlockMetaCompaction{Level: m.level, Sources: src}},
+		out[ddULID(m.t, m.e)] = &metadata.Meta{
+			BlockMeta: tsdb.BlockMeta{ULID: ddULID(m.t, m.e), Version: 1, Compaction: tsdb.BlockMetaCompaction{Level: m.level, Sources: src}},
 			Thanos: metadata.Thanos{Labels: map[string]string{"g": strconv.Itoa(m.group / 3)},
 				Downsample: metadata.ThanosDownsample{Resolution: ddResolutions[m.group%3]}},
 		}
@@ -115,10 +140,10 @@ func runDDFilter(ms []ddMeta, conc int, order []int) (ddResult, string) {
 	}
 	var r ddResult
 	for id := range metas {
-		r.kept = append(r.kept, ulidNum(id))
+		r.kept = append(r.kept, ddNum(id))
 	}
 	for _, id := range f.DuplicateIDs() {
-		r.dups = append(r.dups, ulidNum(id))
+		r.dups = append(r.dups, ddNum(id))
 	}
 	sort.Ints(r.kept)
 	sort.Ints(r.dups)
@@ -170,7 +195,7 @@ func execC31(c *hlib.Ctx, tok []string) string {
 	for _, m := range buildDDMap(ms, identity(len(ms))) {
 		g := -1
 		for _, x := range ms {
-			if testULID(x.id) == m.ULID {
+			if ddULID(x.t, x.e) == m.ULID {
 				g = x.group
 			}
 		}
@@ -222,7 +247,19 @@ func execC31(c *hlib.Ctx, tok []string) string {
 			}
 		}
 	}
-	for i, conc := range []int{2, 8, 1} {
+	concs := []int{2, 8, 1}
+	sameTime := map[int]int{}
+	for _, m := range ms {
+		sameTime[m.t]++
+	}
+	for _, n := range sameTime {
+		if n > 1 { // blocks minted in the same millisecond: more runs, Go's map order differs from run to run
+			concs = []int{2, 8, 1, 1, 2, 8, 1, 2, 8, 1}
+			c.Count("same-timestamp-line")
+			break
+		}
+	}
+	for i, conc := range concs {
 		perm := c.R.Perm(len(ms))
 		if i == 2 { // reversed insertion order
 			for a := range perm {
@@ -234,7 +271,7 @@ func execC31(c *hlib.Ctx, tok []string) string {
 			c.Violation("dupids-mismatch", msg)
 		}
 		if r.String() != first.String() {
-			c.Violation("order-dependent", fmt.Sprintf("concurrency %d: %s, concurrency 1: %s", conc, r, first))
+			c.Violation("order-dependent-outcome", fmt.Sprintf("the same blocks, listed again (concurrency %d): %s; first run (concurrency 1): %s", conc, r, first))
 		}
 	}
 	c.Count(fmt.Sprintf("dups:%d", min(len(first.dups), 5)))
@@ -256,7 +293,11 @@ func showDDMetas(ms []ddMeta) string {
 		for i, s := range m.sources {
 			ss[i] = strconv.Itoa(s)
 		}
-		parts = append(parts, fmt.Sprintf("%d:%d:%d:%s", m.id, m.group, m.level, hlib.Join(ss, ",")))
+		tok := strconv.Itoa(m.t)
+		if m.e != 0 {
+			tok = fmt.Sprintf("%de%d", m.t, m.e)
+		}
+		parts = append(parts, fmt.Sprintf("%s:%d:%d:%s", tok, m.group, m.level, hlib.Join(ss, ",")))
 	}
 	return hlib.Join(parts, ";")
 }
@@ -271,7 +312,8 @@ func genC31(c *hlib.Ctx) {
 		universe := r.Range(2, 12) // source ids 100..100+universe
 		var ms []ddMeta
 		for b := 0; b < nBlocks; b++ {
-			m := ddMeta{id: ids[b] + 1, group: groups[r.Intn(nGroups)], level: 1}
+			m := ddMeta{t: ids[b] + 1, group: groups[r.Intn(nGroups)], level: 1}
+			m.id = m.t * 1000
 			if r.Chance(1, 2) {
 				m.level = r.Range(1, 4)
 			}
@@ -307,11 +349,11 @@ func genC31(c *hlib.Ctx) {
 						m.sources = append(m.sources, src[j])
 					}
 				} else {
-					m.sources = []int{m.id}
+					m.sources = []int{m.t}
 				}
 			case 8: // own id only (a level-1 block)
 				c.Count("src:self")
-				m.sources = []int{m.id}
+				m.sources = []int{m.t}
 			case 9: // superset of an earlier block
 				if len(ms) > 0 {
 					c.Count("src:superset")
@@ -328,6 +370,39 @@ func genC31(c *hlib.Ctx) {
 				c.Count("src:empty")
 			}
 			ms = append(ms, m)
+		}
+		// ULIDs minted in the same millisecond: 2-4 blocks sharing the timestamp of an existing block, differing in
+		// entropy only — same group, same sources, same level (an exact tie up to the last tie-break), or a near-tie
+		if r.Chance(1, 3) && len(ms) > 0 {
+			base := ms[r.Intn(len(ms))]
+			for k, n := 0, r.Range(1, 3); k < n; k++ {
+				tw := ddMeta{t: base.t, e: r.Range(1, 999), group: base.group, level: base.level}
+				tw.id = tw.t*1000 + tw.e
+				dup := false
+				for _, x := range ms {
+					if x.id == tw.id {
+						dup = true
+					}
+				}
+				if dup {
+					continue
+				}
+				tw.sources = append([]int{}, base.sources...)
+				switch r.Intn(5) {
+				case 0:
+					tw.level++ // near-tie: the level decides
+					c.Count("twin:other-level")
+				case 1:
+					tw.sources = append(tw.sources, 300+r.Intn(3)) // near-tie: the source count decides
+					c.Count("twin:more-sources")
+				case 2:
+					tw.group = groups[r.Intn(nGroups)] // possibly another group: no tie at all
+					c.Count("twin:any-group")
+				default:
+					c.Count("twin:exact-tie")
+				}
+				ms = append(ms, tw)
+			}
 		}
 		c.Count(fmt.Sprintf("groups:%d", nGroups))
 		c.Count(fmt.Sprintf("blocks:%d", min(nBlocks, 10)))
